@@ -26,7 +26,7 @@ from collections import Counter
 from lxml import etree
 
 ID = "C16"
-LEVEL = "exploration"
+LEVEL = "fault_enumeration"
 EXHAUSTIVE = False
 KINDS = ["dangling", "norels", "ctcase", "unknownct", "extra", "sliderename", "nocore", "directory"]
 RULE = (
